@@ -349,6 +349,20 @@ func (e *Engine) call(fr *frame, st *State, c *ast.CallExpr, k func(st *State, r
 	}
 	argExprs = append(argExprs, c.Args...)
 	e.evalList(fr, st, argExprs, func(st *State, vs []Val) {
+		// an untyped nil argument takes the type of the parameter it is passed for
+		if sig, ok := fn.Type().(*types.Signature); ok {
+			off := 0
+			if decl.Recv != nil {
+				off = 1
+			}
+			for i := off; i < len(argExprs) && i-off < sig.Params().Len(); i++ {
+				if id, ok := argExprs[i].(*ast.Ident); ok && id.Name == "nil" {
+					if ty := e.typeOf(sig.Params().At(i - off).Type()); ty.K != spec.KUnit && ty.K != vs[i].Ty.K {
+						vs[i] = Val{TV: spec.TV{T: e.zero(ty), Ty: ty}}
+					}
+				}
+			}
+		}
 		if fs := e.specOf(fn); fs != nil && fr.ver != nil && fr.ver.modular && !returnsIterator(fn) {
 			// (a function handing out a storage iterator is a thin wrapper around storage.Find: callers inline it, its
 			// own contract states which snapshot the iterator walks)
@@ -528,6 +542,12 @@ func (e *Engine) assign(fr *frame, st *State, lhs ast.Expr, v Val) {
 		}
 		if v.Deser != nil {
 			panic("std.Deserialize result used without type assertion")
+		}
+		if v.Ty.K == spec.KNB && v.T != nil && sx.Eq(v.T, spec.NilNB) && obj != nil && obj.Type() != nil {
+			// an untyped nil takes the type of the variable it is assigned to
+			if want := e.typeOf(obj.Type()); want.K != spec.KUnit && want.K != spec.KNB {
+				v = Val{TV: spec.TV{T: e.zero(want), Ty: want}}
+			}
 		}
 		if _, local := st.vars[obj]; !local {
 			if _, global := e.globals[obj]; global || (obj.Parent() != nil && obj.Parent() == obj.Pkg().Scope()) {
